@@ -144,7 +144,9 @@ func c19(args []string) error {
 					b.WriteString("#EXT-X-STREAM-INF:BANDWIDTH=" + strconv.Itoa(100000*(i+1)) + ",AUDIO=\"aud\"\n" + plant("m3u8", "variant", true) + "\n")
 				}
 			}
-			uri, ctype, body = fmt.Sprintf("/c19/list%d.m3u8", k), "application/vnd.apple.mpegurl", b.String()
+			// both registered media types, in the spellings servers use (media types are case-insensitive)
+			mts := []string{"application/vnd.apple.mpegurl", "application/x-mpegURL", "application/x-mpegurl", "Application/X-MPEGURL; charset=utf-8", "application/vnd.apple.mpegURL"}
+			uri, ctype, body = fmt.Sprintf("/c19/list%d.m3u8", k), mts[(k/6)%len(mts)], b.String()
 		}
 		run.org.Route(h, uri, origin.Resp{Status: 200, Headers: map[string]string{"Content-Type": ctype}, Body: body})
 		id := fmt.Sprintf("seed-doc-%03d", k)
